@@ -24,7 +24,7 @@ import (
 
 func TestVerif_C12_probeempty(t *testing.T) {
 	vh.Run(t, vh.Spec{Prop: "C12", Unit: "probeempty", Quick: 300, Thorough: 8000, CostMs: 12,
-		Rule: "K in {2,3,4,5}, 10-16 healthy simulated peers connect and identify one by one (admitted through the admission probe until their buckets are full), then 4-7 candidates that answer every FIND_NODE with an EMPTY closer-peers list connect and identify; no lookups are run (a lookup query admits whatever it answers) and the fix-low-peers loop is off; oracle at rest after each candidate: if the table held >= K members when the probe was sent and the table had room for the candidate (UsefulNewPeer), the candidate is not a member afterwards, and it received exactly one probe; candidates probed while the table held fewer than K members may be admitted (documented leniency); non-trivial = at least one candidate was probed against a table of >= K members; distinct by (K, table size sequence)",
+		Rule: "K in {2,3,4,5}, 10-16 healthy simulated peers connect and identify one by one (admitted through the admission probe until their buckets are full), then 4-7 candidates that answer every FIND_NODE with an EMPTY closer-peers list connect and identify; every second case starts with an empty-answering candidate whose probe takes 300-900 ms while K+2 healthy candidates are admitted behind it (the table passes K during the probe: the rule looks at the table when the answer is judged); no lookups are run (a lookup query admits whatever it answers) and the fix-low-peers loop is off; oracle at rest after each candidate: if the table held >= K members when the probe was sent and the table had room for the candidate (UsefulNewPeer), the candidate is not a member afterwards, and it received exactly one probe; candidates probed while the table held fewer than K members may be admitted (documented leniency); non-trivial = at least one candidate was probed against a table of >= K members; distinct by (K, table size sequence)",
 		Clauses: []string{"probe-empty-answer-not-admitted", "healthy-candidates-admitted"}},
 		func(c *vh.Case) {
 			k := 2 + c.R.Intn(4)
@@ -77,6 +77,41 @@ func TestVerif_C12_probeempty(t *testing.T) {
 					synctest.Wait()
 				}
 				admitted := 0
+				// every second case: an empty-answering candidate whose probe is slow (300-900 ms) is introduced first, and
+				// K+2 healthy candidates right behind it without waiting: the table grows past K while that probe is in flight.
+				// The rule speaks of the table at the time the answer is judged.
+				if c.Idx%2 == 0 && nHealthy >= k+2 {
+					e := n.IDs[nHealthy] // the first empty answerer
+					sp := n.S.Peer(e)
+					lat := time.Duration(300+c.R.Intn(600)) * time.Millisecond
+					sizeAtAnswer := -1
+					sp.Script = func(_ int, req *pb.Message) vsim.Reply {
+						if req == nil {
+							return vsim.Reply{}
+						}
+						return vsim.Reply{Delay: lat, Mutate: func(_, resp *pb.Message) {
+							resp.CloserPeers = nil
+							sizeAtAnswer = n.D.routingTable.Size()
+						}}
+					}
+					emit := func(p peer.ID) {
+						n.H.Net.AddConn(p, network.DirOutbound, nil, true)
+						n.H.Peerstore().AddProtocols(p, n.D.protocols...)
+						n.H.Emit(event.EvtPeerIdentificationCompleted{Peer: p})
+					}
+					emit(e)
+					for i := 0; i < k+2; i++ {
+						emit(n.IDs[i])
+					}
+					time.Sleep(2 * time.Second)
+					synctest.Wait()
+					room := n.D.routingTable.UsefulNewPeer(e) || member(e)
+					c.Logf("slow empty answerer %s: table size when its answer arrived %d (K=%d), member afterwards=%v", n.Name(e), sizeAtAnswer, k, member(e))
+					if sizeAtAnswer >= k && room {
+						c.Obs("slow_empty_answerers_judged", 1)
+						c.Check(!member(e), "probe-empty-answer-not-admitted", "candidate %s answered its admission probe with an empty list %v after the probe was sent; the table held %d >= K=%d members when the answer arrived, and it was admitted", n.Name(e), lat, sizeAtAnswer, k)
+					}
+				}
 				for i := 0; i < nHealthy; i++ {
 					p := n.IDs[i]
 					room := n.D.routingTable.UsefulNewPeer(p)
